@@ -17,14 +17,14 @@ Definition late_of (cs : cstate) (o : op) (s' : state) : list nat :=
 Lemma cstep_aop : forall cfg cs o, op_enabled cs o = true ->
   let s' := fst (step isort cfg (cs_s cs) o) in
   let ch := charge cfg (cs_s cs) o (cs_cands cs) in
-  exists evs,
   cstep cfg cs (AOp o) =
     Some (mkCS s' (cs_ph cs) (cs_gstart cs) (cs_psnap cs) (relive s' (cs_cands cs)) (cs_ncand cs) (cs_sel cs)
-               (cs_added1 cs + fst ch) (cs_added2 cs + snd ch) (late_of cs o s') (cs_dph cs), evs).
+               (cs_added1 cs + fst ch) (cs_added2 cs + snd ch) (late_of cs o s') (cs_dph cs),
+          match o with ForceTrim => [EForce (snd (step isort cfg (cs_s cs) o))] | _ => [EOp o] end).
 Proof.
   intros cfg cs o He. cbv zeta. unfold cstep. rewrite He. cbn [negb].
   unfold charge, late_of. destruct (step isort cfg (cs_s cs) o) as [s' cl] eqn:Es. cbn [fst].
-  destruct o; cbn [op_pid]; eexists; rewrite ?Z.add_0_r; try reflexivity.
+  destruct o; cbn [op_pid snd]; rewrite ?Z.add_0_r; try reflexivity.
   destruct (count s' =? count (cs_s cs) + 1); rewrite ?Z.add_0_r; [|reflexivity].
   destruct (find _ (cs_cands cs)) as [e|]; rewrite ?Z.add_0_r; [|reflexivity].
   destruct (ce_live e); rewrite ?Z.add_0_r; [|reflexivity].
@@ -61,7 +61,7 @@ Proof.
   intros cfg cs o cs' evs H Hs.
   assert (He : op_enabled cs o = true).
   { unfold cstep in Hs. destruct (op_enabled cs o); [reflexivity|discriminate]. }
-  destruct (cstep_aop cfg cs o He) as [evs' Hq]. cbv zeta in Hq. rewrite Hq in Hs. inversion Hs; subst cs' evs. clear Hs Hq.
+  pose proof (cstep_aop cfg cs o He) as Hq. cbv zeta in Hq. rewrite Hq in Hs. inversion Hs; subst cs' evs. clear Hs Hq.
   set (s' := fst (step isort cfg (cs_s cs) o)).
   destruct H as [Hinv Hnd Hvis Hearly Hsnap Hsel Htodo Hadd Hc].
   assert (Hinv' : inv s') by (apply (inv_step isort isort_perm), Hinv).
